@@ -48,7 +48,7 @@ def line_alphabet():
     for v in (b'', b'a', b'ab', b'abc', b'abcd', b'LOG_', b'LOG', b'LOG_A', b'log_user', b'x_y', b'___', b'USER', b'U' * 500):
         L.append(b'syslog_facility = ' + v)
         L.append(b'syslog_level = ' + v)
-    for v in (b'', b'0', b'1', b'254', b'255', b'256', b'1048575', b'1048576', b'2047m', b'2048m', b'2147483647', b'2147483648', b'4294967296', b'99999999999999999999', b'9' * 100, b'7k', b'7x', b'k', b'-1', b'1m'):
+    for v in (b'', b'0', b'1', b'254', b'255', b'256', b'1048575', b'1048576', b'2047m', b'2048m', b'2147483647', b'2147483648', b'4294967296', b'99999999999999999999', b'9' * 100, b'7k', b'7x', b'k', b'-1', b'1m', b'-9999999999999999k', b'-99999999999999m', b'-9223372036854775808', b'-9223372036854775809k', b'+9999999999999999k'):
         L.append(b'datasource_message_max_length = ' + v)
         L.append(b'log_message_max_length = ' + v)
     for v in (b'', b'y', b'n', b'x', b'yes', b'no'):
@@ -83,7 +83,8 @@ EXEC_INPUTS = {
     'arg5000': ('execve', H.hx(b'/p'), [H.hx(b'p'), H.rep('A', 5000), H.hx(b'\xff\x01')], [(300, H.hx(b'K=v'))]),
     'emptypath': ('execv', H.hx(b''), [H.hx(b'')], None),
 }
-ENVS = {'normal': 'env set ' + H.vec([H.hx(b'PATH=/bin'), H.hx(b'LOGNAME=me'), H.hx(b'BIG=' + b'B' * 5000), H.hx(b'N' * 95 + b'=nn')]),
+ENVS = {'malformed': 'env set ' + H.vec([H.hx(b'A=1'), H.hx(b'NOEQUALSSIGN'), H.hx(b''), H.hx(b'=v'), H.hx(b'A=2'), H.hx(b'NL=a\nb')]),
+        'normal': 'env set ' + H.vec([H.hx(b'PATH=/bin'), H.hx(b'LOGNAME=me'), H.hx(b'BIG=' + b'B' * 5000), H.hx(b'N' * 95 + b'=nn')]),
         'empty': 'env set []', 'null': 'env null'}
 
 
